@@ -152,6 +152,8 @@ def main(tier):
     plan += [(racing_from("healthy", [dict(max_workers=2, timeout=7), dict(max_workers=2)]), 1, Ponly),
              (racing_from("cold", [dict(max_workers=1), dict(max_workers=2)]), 1, Ponly),
              (racing_from("healthy", [dict(max_workers=2, timeout=7), dict(max_workers=1, timeout=7)]), 1, Ponly)]
+    # the caller learns from a future that the pool broke and asks again at once
+    plan += [(PG.crash_then_reuse(2, 3), 1, PT), (PG.crash_then_reuse(1, 2), 1, PT)]
     # get_reusable_executor re-entered from done-callbacks / racing with callbacks that submit
     plan += [(PG.reuse_in_callback(2, 3), 1, PT), (PG.reuse_in_callback(3, 1), 0, PT),
              (PG.reuse_in_callback(2, 2), 1, PT), (PG.resize_vs_callback_submit(1, 3), 1, PT)]
